@@ -32,7 +32,7 @@ def with_cfg(lines, method, flags, eintr=None):
         if l.startswith("exclude"):
             continue
         if l.startswith("cfg"):
-            keep = [t for t in l.split()[1:] if t.startswith(("waitlimit", "cblimit"))]
+            keep = [t for t in l.split()[1:] if t.startswith(("waitlimit", "cblimit", "fill"))]
             out.append("cfg " + " ".join(keep + list(flags) + ([f"eintr={eintr}"] if eintr else [])))
         else:
             out.append(l)
